@@ -99,6 +99,11 @@ impl ToSV for Address {
     open spec fn unsv(v: SV) -> Self { match v { SV::Addr(x) => x, _ => arbitrary() } }
     proof fn lemma_rt(&self) {}
 }
+/// NOTE (kani/sdkmodel, KNOWN_MISMATCH `option_encoding…`): the SDK encodes `Some(x)` as the value of `x` itself and `None` as Void;
+/// this model wraps `Some(x)` as `[x]`. Both encodings are injective and round-trip on every `Option<T>` whose `T` never encodes
+/// to Void and is not itself an `Option` - which holds for every Option-typed field, value and event member in /repo (no
+/// `Option<Option<_>>`, no `Option<()>`; no storage KEY is Option-typed, so the `Some(k)` / `k` key collision cannot arise). The
+/// proofs use only injectivity and the round trip, never the concrete shape.
 impl<T: ToSV> ToSV for Option<T> {
     open spec fn sv(&self) -> SV { match self { None => SV::Void, Some(x) => SV::Vec(seq![x.sv()]) } }
     open spec fn unsv(v: SV) -> Self { match v { SV::Vec(s) => Some(T::unsv(s[0])), _ => None } }
@@ -165,10 +170,10 @@ impl World {
     pub open spec fn temp_has(self, k: SV) -> bool {
         self.temporary.contains_key(k) && self.temp_live.contains_key(k) && self.temp_live[k] >= self.ledger_seq
     }
+    /// the host's `max_live_until_ledger`: `sequence_number.checked_add(max_entry_ttl.saturating_sub(1))` (soroban-env-host
+    /// ledger_info.rs); may exceed u32::MAX as a number - the host function then traps (cross-checked: kani/sdkmodel)
     pub open spec fn max_live_until(self) -> int {
-        let s = self.ledger_seq as int + self.max_entry_ttl as int;
-        let s2 = if s > u32::MAX { u32::MAX as int } else { s };
-        if s2 >= 1 { s2 - 1 } else { 0 }
+        self.ledger_seq as int + (if self.max_entry_ttl >= 1 { self.max_entry_ttl as int - 1 } else { 0 })
     }
     /// same contract state, different authorization/event/call logs
     pub open spec fn same_storage(self, o: World) -> bool {
@@ -400,7 +405,7 @@ impl Env {
     #[verifier::external_body]
     pub fn ledger_timestamp(&self) -> (r: u64) ensures r == self@.timestamp { unimplemented!() }
     #[verifier::external_body]
-    pub fn ledger_max_live_until_ledger(&self) -> (r: u32) ensures r as int == self@.max_live_until() { unimplemented!() }
+    pub fn ledger_max_live_until_ledger(&self) -> (r: u32) ensures self@.max_live_until() <= u32::MAX, r as int == self@.max_live_until() { unimplemented!() }
     #[verifier::external_body]
     pub fn current_contract_address(&self) -> (r: Address) ensures r == self@.this { unimplemented!() }
 
